@@ -363,9 +363,23 @@ func propMain(args []string, o RunOpts, tier string) int {
 	}
 	// harness failures that no obligation explains
 	if hres != nil {
+		knownCases := map[*KnownFinding][]string{}
+		var knownOrder []*KnownFinding
 		for _, f := range hres.Failures {
 			if kf := matchKnownHarness(known, id, f.Case); kf != nil {
-				fmt.Printf("KNOWN-FINDING: property=%s %s (bounded case %s)\n", id, kf.What, f.Case)
+				if len(knownCases[kf]) == 0 {
+					knownOrder = append(knownOrder, kf)
+				}
+				knownCases[kf] = append(knownCases[kf], f.Case)
+			}
+		}
+		for _, kf := range knownOrder {
+			cs := knownCases[kf]
+			fmt.Printf("KNOWN-FINDING: property=%s %s (%d bounded cases of class %s, e.g. %s)\n", id, kf.What, len(cs), kf.Harness, cs[0])
+			knownHit = append(knownHit, fmt.Sprintf("%s (%d bounded cases)", kf.Harness, len(cs)))
+		}
+		for _, f := range hres.Failures {
+			if kf := matchKnownHarness(known, id, f.Case); kf != nil {
 				continue
 			}
 			if len(failing) == 0 {
